@@ -408,4 +408,100 @@ Proof.
     apply pat_matches_length in Em. apply Nat.eqb_neq in E. contradiction.
 Qed.
 
+
+(* ------------------------------------------------------------------ the filter counter _numFilters *)
+
+Lemma entries_put_countQ : forall (Q : entry -> bool) es e,
+  length (filter Q (entries_put es e))
+  + (match entries_get es (e_pat e) with Some e0 => b2n (Q e0) | None => 0 end)
+  = length (filter Q es) + b2n (Q e).
+Proof.
+  intros Q. induction es as [|x es IH]; intros e; cbn [entries_put entries_get filter length].
+  - destruct (Q e); cbn; lia.
+  - destruct (pat_eqb (e_pat x) (e_pat e)) eqn:E.
+    + cbn [filter]. destruct (Q e), (Q x); cbn; lia.
+    + cbn [filter]. specialize (IH e). destruct (Q x); cbn [length]; lia.
+Qed.
+
+Lemma groups_put_countQ : forall (Q : entry -> bool) gs d e,
+  length (filter Q (flat_map snd (groups_put gs d e)))
+  + (match entries_get (group_get gs d) (e_pat e) with Some e0 => b2n (Q e0) | None => 0 end)
+  = length (filter Q (flat_map snd gs)) + b2n (Q e).
+Proof.
+  intros Q. induction gs as [|[k es] gs IH]; intros d e; cbn [groups_put group_get flat_map snd].
+  - cbn. destruct (Q e); cbn; lia.
+  - destruct (Nat.eqb k d) eqn:E; cbn [flat_map snd]; rewrite !filter_app, !app_length.
+    + pose proof (entries_put_countQ Q es e). lia.
+    + specialize (IH d e). lia.
+Qed.
+
+Lemma entries_remove_countQ : forall (Q : entry -> bool) es p e0, entries_get es p = Some e0 ->
+  length (filter Q (entries_remove es p)) + b2n (Q e0) = length (filter Q es).
+Proof.
+  intros Q. induction es as [|x es IH]; intros p e0 H; cbn [entries_remove entries_get filter] in *; [discriminate|].
+  destruct (pat_eqb (e_pat x) p) eqn:E.
+  - inversion H; subst. destruct (Q e0); cbn; lia.
+  - cbn [filter]. specialize (IH p e0 H). destruct (Q x); cbn [length]; lia.
+Qed.
+
+Lemma groups_remove_countQ : forall (Q : entry -> bool) gs d p e0, entries_get (group_get gs d) p = Some e0 ->
+  length (filter Q (flat_map snd (groups_remove gs d p))) + b2n (Q e0) = length (filter Q (flat_map snd gs)).
+Proof.
+  intros Q. induction gs as [|[k es] gs IH]; intros d p e0 H; cbn [groups_remove group_get flat_map snd] in *; [discriminate|].
+  destruct (Nat.eqb k d) eqn:E.
+  - pose proof (entries_remove_countQ Q es p e0 H) as Hc.
+    destruct (entries_remove es p) as [|y ys] eqn:Er; cbn [flat_map snd]; rewrite !filter_app, !app_length.
+    + cbn in Hc. lia.
+    + lia.
+  - cbn [flat_map snd]. rewrite !filter_app, !app_length. specialize (IH d p e0 H). lia.
+Qed.
+
+Lemma nf_update : forall (nf : N) (c c' : nat) (had has : bool),
+  nf = N.of_nat c -> c' + b2n had = c + b2n has ->
+  (if Bool.eqb had has then nf else if has then (nf + 1)%N else (nf - 1)%N) = N.of_nat c'.
+Proof. intros nf c c' had has H1 H2. subst nf. destruct had, has; cbn in *; lia. Qed.
+
+Lemma has_filter_mk : forall p f, has_filter (mkEntry p f) = match f with Some _ => true | None => false end.
+Proof. intros p f. destruct f; reflexivity. Qed.
+
+Lemma wf_matcher_put : forall m p f, wf_matcher m -> wf_matcher (m_put m p f).
+Proof.
+  intros m p f [Hw Hn]. split; [now apply wf_put|].
+  unfold m_put. destruct p as [|c p]; auto. cbn [m_groups m_nfilters].
+  pose proof (groups_put_countQ has_filter (m_groups m) (length (c :: p)) (mkEntry (c :: p) f)) as H.
+  cbn [e_pat] in H. rewrite has_filter_mk in H. unfold m_get.
+  set (eg := entries_get (group_get (m_groups m) (length (c :: p))) (c :: p)) in *.
+  apply (nf_update _ (count_filters (m_groups m))); auto.
+  unfold count_filters. destruct eg; cbn [b2n] in *; lia.
+Qed.
+
+Lemma wf_matcher_set_filter : forall m p f, wf_matcher m -> wf_matcher (m_set_filter m p f).
+Proof.
+  intros m p f [Hw Hn]. split; [now apply wf_set_filter|].
+  unfold m_set_filter. destruct (m_get m p) as [e|] eqn:E; auto. cbn [m_groups m_nfilters].
+  pose proof (groups_put_countQ has_filter (m_groups m) (length p) (mkEntry p f)) as H.
+  cbn [e_pat] in H. rewrite has_filter_mk in H. unfold m_get in E. rewrite E in H.
+  apply (nf_update _ (count_filters (m_groups m))); auto.
+Qed.
+
+Lemma wf_matcher_remove : forall m p m', wf_matcher m -> m_remove m p = Some m' -> wf_matcher m'.
+Proof.
+  intros m p m' [Hw Hn] Hr. split; [now apply (wf_remove m p)|].
+  unfold m_remove in Hr. destruct (m_get m p) as [e|] eqn:E; [|discriminate]. inversion Hr; subst.
+  cbn [m_groups m_nfilters].
+  pose proof (groups_remove_countQ has_filter (m_groups m) (length p) p e E) as H.
+  unfold count_filters in *. rewrite Hn. destruct (has_filter e); cbn [b2n] in H; lia.
+Qed.
+
+(* with the counter right, "no filter installed" is what the counter says *)
+Lemma nfilters_zero : forall m, wf_matcher m -> (N.ltb 0 (m_nfilters m) = false) ->
+  forall e, In e (all_entries m) -> e_flt e = None.
+Proof.
+  intros m [_ Hn] H e He. apply N.ltb_ge in H. rewrite Hn in H. unfold count_filters in H.
+  destruct (e_flt e) eqn:Ef; auto. exfalso.
+  assert (Hin : In e (filter has_filter (flat_map snd (m_groups m)))).
+  { apply filter_In. split; auto. unfold has_filter. now rewrite Ef. }
+  destruct (filter has_filter (flat_map snd (m_groups m))); [contradiction|cbn in H; lia].
+Qed.
+
 End MatcherProofs.
